@@ -635,6 +635,9 @@ func ReadRequest(b *bfe_bufio.Reader, maxUriBytes int) (req *Request, err error)
 	if !ok {
 		return nil, &badStringError{"malformed HTTP request", s}
 	}
+	if req.Method == "" || strings.IndexFunc(req.Method, isNotToken) != -1 {
+		return nil, &badStringError{"invalid method", req.Method}
+	}
 	rawurl := req.RequestURI
 
 	if len(rawurl) > maxUriBytes {
